@@ -5,19 +5,25 @@ use std::path::Path;
 pub mod util;
 pub mod c01;
 pub mod c02;
+pub mod c03;
+pub mod c04;
+pub mod c07;
 pub mod c08;
 pub mod c10;
 pub mod c17;
 pub mod c18;
 
 pub fn ids() -> Vec<&'static str> {
-    vec!["C01", "C02", "C08", "C10", "C17", "C18"]
+    vec!["C01", "C02", "C03", "C04", "C07", "C08", "C10", "C17", "C18"]
 }
 
 pub fn get(id: &str) -> Option<CheckDef> {
     Some(match id {
         "C01" => c01::def(),
         "C02" => c02::def(),
+        "C03" => c03::def(),
+        "C04" => c04::def(),
+        "C07" => c07::def(),
         "C08" => c08::def(),
         "C10" => c10::def(),
         "C17" => c17::def(),
